@@ -193,6 +193,8 @@ def run(chk: common.Check) -> None:
         s['decoys'] = False
         s['nonresuming_first'] = False
         specs.append(s)
+    # threads printing at the same time under a 1 µs thread-switch interval: the text that reaches the real stdout and the text reported
+    specs += [dict(x, want_reference=True) for x in _trace.stress_specs(chk, 4 if chk.tier == 'quick' else 30)]
     # corpus: minimised past failures, every command policy (F-K2: the last bytecode of the script / of a function has no line number)
     for src in CORPUS:
         for pol in _trace.POLICIES + [{'kind': 'random', 'seed': 3, 'choices': ['step', 'until', 'next', 'return']}]:
